@@ -267,6 +267,36 @@ func Check(opts Options) int {
 				r.Reasons = append(r.Reasons, "solver model for "+id+" did not reproduce natively (encoding or stub mismatch)")
 			}
 		}
+		// bound-exhausted paths: does the real code die on them too?
+		if hc.ConfirmBounds && !hc.NoReplay {
+			for k, o := range r.boundOut {
+				if k >= 3 {
+					break
+				}
+				nReplayed++
+				res, err := rp.run(scenario{Harness: r.Name, Tier: opts.Tier, Inputs: o.Inputs, Runs: 1, Race: hc.Race}, "")
+				if err != nil {
+					fmt.Fprintf(os.Stderr, "replay error: %v\n", err)
+					continue
+				}
+				if !confirms(o, res) {
+					continue
+				}
+				nConfirmed++
+				violations++
+				id := prop + ".resource-exhaustion"
+				path := filepath.Join(replayDir, fmt.Sprintf("%s-%s-%d.json", r.Name, sanitize(id), k))
+				b, _ := json.MarshalIndent(map[string]any{"property": prop, "harness": r.Name, "tier": opts.Tier, "assert": id, "kind": o.Kind, "msg": o.Msg,
+					"inputs": o.Inputs, "notes": o.Notes, "stack": o.Stack, "native": res}, "", " ")
+				os.WriteFile(path, b, 0o644)
+				fmt.Printf("VIOLATION property=%s replay=%s\n", prop, path)
+				fmt.Printf("  harness=%s assert=%s engine bound exhausted (%s) and the real code ends with %v inputs=%s\n", r.Name, id, o.Msg, res["kind"], compactJSON(o.Inputs))
+				samples = append(samples, map[string]any{"harness": r.Name, "kind": "violation", "assert": id, "inputs": o.Inputs, "notes": o.Notes})
+				exit = 1
+				r.Status = "violation"
+				break
+			}
+		}
 		if r.Status == "inconclusive" {
 			fmt.Printf("INCONCLUSIVE harness=%s reason=%s\n", r.Name, strings.Join(r.Reasons, "; "))
 			for msg, n := range r.Unsupported {
@@ -285,6 +315,20 @@ func Check(opts Options) int {
 				case err != nil:
 					fmt.Fprintf(os.Stderr, "replay error: %v\n", err)
 					r.Reasons = append(r.Reasons, "native replay unavailable: "+firstLine(err.Error()))
+				case hc.Race && res["kind"] == "violation" && res["id"] == "C09.race":
+					// the race detector reports only races that happened: a
+					// race on a path the lock analysis passed is a violation
+					// (and a gap of the analysis, recorded as such)
+					violations++
+					path := filepath.Join(replayDir, fmt.Sprintf("%s-C09.race.native-%d.json", r.Name, k))
+					b, _ := json.MarshalIndent(map[string]any{"property": prop, "harness": r.Name, "tier": opts.Tier, "assert": "C09.race", "kind": "violation",
+						"msg": "race detector report on a path the lock analysis passed", "inputs": o.Inputs, "notes": o.Notes, "native": res}, "", " ")
+					os.WriteFile(path, b, 0o644)
+					fmt.Printf("VIOLATION property=%s replay=%s\n", prop, path)
+					fmt.Printf("  harness=%s assert=C09.race found by the native race detector during cross-validation, not by the lock analysis inputs=%s\n", r.Name, compactJSON(o.Inputs))
+					samples = append(samples, map[string]any{"harness": r.Name, "kind": "violation", "assert": "C09.race", "found_by": "native cross-validation", "inputs": o.Inputs})
+					exit = 1
+					r.Status = "violation"
 				case res["kind"] != "ok":
 					fmt.Printf("DIVERGENCE harness=%s symbolic=ok native=%s inputs=%s\n", r.Name, compactJSON(res), compactJSON(o.Inputs))
 					r.Reasons = append(r.Reasons, "engine and native execution disagree on an ok path")
@@ -336,7 +380,7 @@ func Check(opts Options) int {
 		"functions_encoded":             funcs,
 		"queries":                       map[string]int{"sat": totSat, "unsat": totUnsat, "unknown": totUnk},
 		"solver_s":                      totSolver,
-		"solver":                        "z3 4.8.12 (incremental, check-sat-assuming), QF_BV",
+		"solver":                        "z3 5.1.0 (z3-new): incremental check-sat-assuming with 250 ms limit, then one-shot cone query in a second process; Bool + BV<=64",
 		"covers_hit":                    covers,
 		"load_s":                        P.LoadTime.Seconds(),
 		"exhaustive":                    false,
